@@ -100,18 +100,30 @@ def flatten (layers : List FSLayer) : List (String × String) :=
 
 /-! ### the scanners (parameters) and the indexer on a layer stack -/
 
+/-- One file-based package ecosystem (python, java, ruby, nodejs: `gobin = false`, coalesced by
+    the identical python|java|ruby|nodejs coalescers; Go executables: `gobin = true`, coalesced
+    by gobin/coalescer.go).  `scan path content`: the packages the ecosystem's scanner reads out
+    of one regular file (python METADATA, package.json, gemspec, jar: at most one; a Go
+    executable: its main module, the standard library and every dependency). -/
+structure FileEco where
+  gobin : Bool := false
+  scan : String → String → List Pkg
+
 /-- The scanners, abstractly.  `osDbs`: paths of the OS package databases (one linux
-    ecosystem each: dpkg's `var/lib/dpkg/status`, apk's `lib/apk/db/installed`, …);
-    `rhelDbs`: the same for ecosystems coalesced by `rhel.Coalescer`;
+    ecosystem each: dpkg's `var/lib/dpkg/status`, apk's `lib/apk/db/installed`, rpm under the
+    `rpm` ecosystem, …); `rhelDbs`: the same for ecosystems coalesced by `rhel.Coalescer`;
     `scanDB d content`: the packages an OS database scanner reads out of the file;
-    `scanFile path content`: what the language scanners make of one regular file
-    (python METADATA, package.json, gemspec, jar). -/
+    `distFile rh d` / `scanDist rh d content`: the file the distribution scanner of the ecosystem
+    of database `d` (`rh`: under `rhel.Coalescer`) reads, and what it makes of its content;
+    `fecos`: the file-based ecosystems. -/
 structure Scanners where
   osDbs : List String
   /-- databases of an ecosystem that uses `rhel.Coalescer` (rpm on RHEL), one ecosystem each -/
   rhelDbs : List String := []
   scanDB : String → String → List Pkg
-  scanFile : String → String → Option Pkg
+  fecos : List FileEco
+  distFile : Bool → String → String := fun _ _ => "etc/os-release"
+  scanDist : Bool → String → String → Option Dist := fun _ _ _ => none
 
 /-- every OS package database path -/
 def Scanners.allDbs (S : Scanners) : List String := S.osDbs ++ S.rhelDbs
@@ -119,59 +131,94 @@ def Scanners.allDbs (S : Scanners) : List String := S.osDbs ++ S.rhelDbs
 /-- OS packages carry the database path and no file path. -/
 def osPkgsOf (S : Scanners) (d c : String) : List Pkg := (S.scanDB d c).map fun p => { p with db := d, fp := "" }
 
-/-- one language package: `Filepath` is the file it was read from -/
-def langPkgAt (S : Scanners) (q c : String) : Option Pkg := (S.scanFile q c).map fun p => { p with fp := q }
+/-- the distribution the ecosystem's scanner finds in one layer scanned in isolation -/
+def distOf (S : Scanners) (rh : Bool) (d : String) (l : FSLayer) : Option Dist :=
+  match fileOf l (S.distFile rh d) with
+  | some c => S.scanDist rh d c
+  | none => none
 
-/-- what the OS scanner of database `d` stores for one layer, scanned in isolation -/
-def osArts (S : Scanners) (d : String) (l : FSLayer) : Layer :=
-  { hash := l.hash, pkgs := match fileOf l d with | some c => osPkgsOf S d c | none => [] }
+/-- what the OS scanners of database `d` store for one layer, scanned in isolation -/
+def osArts (S : Scanners) (rh : Bool) (d : String) (l : FSLayer) : Layer :=
+  { hash := l.hash, pkgs := (match fileOf l d with | some c => osPkgsOf S d c | none => []),
+    dists := (distOf S rh d l).toList }
 
-def langPkgs (S : Scanners) (l : FSLayer) : List Pkg :=
-  l.entries.filterMap fun e => match e.2 with
-    | .file c => if isWhiteout e.1 then none else langPkgAt S e.1 c
-    | .dir => none
+/-- the packages of one file: `Filepath` is the file they were read from -/
+def filePkgsAt (E : FileEco) (q c : String) : List Pkg := (E.scan q c).map fun p => { p with fp := q }
+
+/-- what the ecosystem's package scanner finds in one layer scanned in isolation -/
+def filePkgs (E : FileEco) (l : FSLayer) : List Pkg :=
+  l.entries.flatMap fun e => match e.2 with
+    | .file c => if isWhiteout e.1 then [] else filePkgsAt E e.1 c
+    | .dir => []
 
 def defaultRepo : Repo := { id := "R", name := "default", key := "", uri := "" }
 
-/-- language ecosystem: `LayerScanner` stores the scanner's default repository whenever it found a package -/
-def langArts (S : Scanners) (l : FSLayer) : Layer :=
-  { hash := l.hash, pkgs := langPkgs S l, repos := if (langPkgs S l).isEmpty then [] else [defaultRepo] }
+/-- gobin.Repository (the magic strings of gobin/coalescer.go) -/
+def goRepo : Repo := { id := "G", name := "go", key := "", uri := "https://pkg.go.dev/" }
+
+def FileEco.repo (E : FileEco) : Repo := if E.gobin then goRepo else defaultRepo
+
+/-- file ecosystem: `LayerScanner` stores the scanner's default repository whenever it found a package -/
+def fileArts (E : FileEco) (l : FSLayer) : Layer :=
+  { hash := l.hash, pkgs := filePkgs E l, repos := if (filePkgs E l).isEmpty then [] else [E.repo] }
+
+def FileEco.kind (E : FileEco) : Kind := if E.gobin then Kind.gobin else Kind.lang
 
 def whArts (l : FSLayer) : Layer :=
   { hash := l.hash, files := (whiteoutsOf l).map fun w => { path := w, kind := whiteoutKind } }
 
 /-- the per-ecosystem artifact lists, packed per manifest layer as `controller.coalesce` does -/
 def ecosOf (S : Scanners) (layers : List FSLayer) : List (Kind × List Layer) :=
-  ((S.osDbs.map fun d => (Kind.linux, layers.map (osArts S d))) ++
-   (S.rhelDbs.map fun d => (Kind.rhel, layers.map (osArts S d)))) ++
-    [(Kind.lang, layers.map (langArts S)), (Kind.wh, layers.map whArts)]
+  (((S.osDbs.map fun d => (Kind.linux, layers.map (osArts S false d))) ++
+   (S.rhelDbs.map fun d => (Kind.rhel, layers.map (osArts S true d)))) ++
+   (S.fecos.map fun E => (E.kind, layers.map (fileArts E)))) ++
+    [(Kind.wh, layers.map whArts)]
 
 /-- `Index` on a layer stack: every layer scanned in isolation, then coalesce, MergeSR, resolve -/
 def indexModel (S : Scanners) (layers : List FSLayer) : Option Report :=
   indexCoalesce (layers.map (·.hash)) (ecosOf S layers)
 
+/-- every package some file ecosystem finds in a layer -/
+def allFilePkgs (S : Scanners) (l : FSLayer) : List Pkg := S.fecos.flatMap fun E => filePkgs E l
+
 /-- the same scanners on the single flattened file system -/
 def scanImage (S : Scanners) (layers : List FSLayer) : List Pkg :=
   (S.allDbs.flatMap fun d => match present layers d with | some c => osPkgsOf S d c | none => []) ++
-    (flatten layers).filterMap fun qc => langPkgAt S qc.1 qc.2
+    S.fecos.flatMap fun E => (flatten layers).flatMap fun qc => filePkgsAt E qc.1 qc.2
+
+/-- the distribution the ecosystem's scanner finds on the flattened file system -/
+def imageDist (S : Scanners) (rh : Bool) (d : String) (layers : List FSLayer) : Option Dist :=
+  match present layers (S.distFile rh d) with
+  | some c => S.scanDist rh d c
+  | none => none
 
 /-! ### the (decidable) hypothesis of the composition theorem, executable
 
   `tameB` is the Boolean form of `Tame` (Proofs/LayerFS.lean, `tameB_iff`); the driver
   evaluates it on the abstraction of every generated history. -/
 
+/-- ids of two file ecosystems are apart -/
+def ecoApart (layers : List FSLayer) (E E' : FileEco) : Prop :=
+  ∀ l ∈ layers, ∀ p ∈ filePkgs E l, ∀ l' ∈ layers, ∀ p' ∈ filePkgs E' l', p.id ≠ p'.id
+
+instance (layers : List FSLayer) (E E' : FileEco) : Decidable (ecoApart layers E E') := by
+  unfold ecoApart; infer_instance
+
 def tameB (S : Scanners) (layers : List FSLayer) : Bool :=
-  decide (∀ l ∈ layers, (whiteoutsOf l ≠ [] ∨ langPkgs S l ≠ []) → (layers.map (·.hash)).count l.hash = 1) &&
+  decide (∀ l ∈ layers, ∀ l' ∈ layers, l.hash = l'.hash → l.entries = l'.entries) &&
   decide (∀ l ∈ layers, (l.entries.map (·.1)).Nodup) &&
   decide (∀ l ∈ layers, (whiteoutsOf l).length ≤ 1 ∧ whiteoutsOf l = whiteoutFiles l) &&
   decide (∀ l ∈ layers, ∀ w ∈ whiteoutsOf l, ¬ (base w = opqName ∧ dir w = ".")) &&
-  decide (∀ l ∈ layers, ∀ l' ∈ layers, ∀ p ∈ langPkgs S l', hides l p.fp = (whiteoutFiles l).any fun w => covers w p.fp) &&
+  decide (∀ l ∈ layers, ∀ l' ∈ layers, ∀ p ∈ allFilePkgs S l', hides l p.fp = (whiteoutFiles l).any fun w => covers w p.fp) &&
   decide (∀ d ∈ S.allDbs, ∀ l ∈ layers, hides l d = false ∧ ∀ c ∈ fileOf l d, S.scanDB d c ≠ []) &&
-  decide (layers.Pairwise fun l l' => ∀ e ∈ l.entries, ∀ c ∈ fileOf l e.1, ∀ p ∈ S.scanFile e.1 c,
-      ∀ c' ∈ fileOf l' e.1, (∃ p' ∈ S.scanFile e.1 c', p'.id = p.id) ∨ hides l' e.1 = true) &&
-  decide (∀ l ∈ layers, ∀ l' ∈ layers, ∀ p ∈ langPkgs S l, ∀ p' ∈ langPkgs S l', p.id = p'.id → p.fp = p'.fp) &&
+  decide (∀ E ∈ S.fecos, layers.Pairwise fun l l' => ∀ e ∈ l.entries, ∀ c ∈ fileOf l e.1, ∀ p ∈ E.scan e.1 c,
+      ∀ c' ∈ fileOf l' e.1, (∃ p' ∈ E.scan e.1 c', p'.id = p.id) ∨ hides l' e.1 = true) &&
+  decide (∀ E ∈ S.fecos, ∀ l ∈ layers, ∀ l' ∈ layers, ∀ p ∈ filePkgs E l, ∀ p' ∈ filePkgs E l',
+      p.id = p'.id → p.fp = p'.fp ∧ p.db = p'.db) &&
   decide (∀ d ∈ S.allDbs, ∀ l ∈ layers, ∀ c ∈ fileOf l d, ∀ p ∈ S.scanDB d c,
-      ∀ l' ∈ layers, ∀ p' ∈ langPkgs S l', p.id ≠ p'.id)
+      ∀ l' ∈ layers, ∀ p' ∈ allFilePkgs S l', p.id ≠ p'.id) &&
+  decide (S.fecos.Pairwise (ecoApart layers)) &&
+  decide (∀ E ∈ S.fecos, E.gobin = true → ∀ l ∈ layers, ∀ p ∈ filePkgs E l, hasGoPrefix p.db = true)
 
 /-! ### line protocol: `flat layer|layer|…`, layer = `-` or `path:d,path:cN,…` -/
 
@@ -193,12 +240,16 @@ def flatLine (s : String) : String :=
     let sorted := out.mergeSort fun a b => !(b < a)
     if sorted.isEmpty then "-" else ",".intercalate sorted
 
-/-! ### line protocol: `e2e <dbs> <table> <stack>` — the whole model against the real indexer
+/-! ### line protocol: `e2e <osdbs> <rheldbs> <fecos> <table> <stack>` — the whole model against the real indexer
 
-  table  = `-` | entry `,` entry …      `O~<content>~<id>+<id>…`   what the OS scanner reads out of a database content
-                                         `F~<path>~<content>~<id>~<db>`   the language package found in a file
+  osdbs, rheldbs = `-` | db `,` db …            db = `<path>` or `<path>@<distribution file>`
+  fecos  = `-` | name `,` name …                 a name starting with `*` is coalesced by gobin
+  table  = `-` | entry `,` entry …
+             `O~<content>~<id>+<id>…`              what the OS scanner reads out of a database content
+             `F~<eco>~<path>~<content>~<id>~<db>`  a package the ecosystem's scanner finds in a file (several lines per file allowed)
+             `D~<0|1>~<db>~<content>~<dist>`       what the distribution scanner of that ecosystem makes of its file
   stack  = layer `|` layer …,  layer = `<hash>;<entries>` (entries as in `flat`)
-  answer = `tame=<bool> idx=<id@db,…> img=<id@db,…>`
+  answer = `tame=<bool> idx=<id@db#dist,…> img=<id@db,…> dist=<0|1>:<db>=<dist>,…`
 -/
 
 def mkPkg (id db : String) : Pkg :=
@@ -206,21 +257,38 @@ def mkPkg (id db : String) : Pkg :=
 
 structure ScanTable where
   os : List (String × List String) := []
-  files : List ((String × String) × (String × String)) := []
+  files : List ((String × String × String) × (String × String)) := []
+  dists : List ((Bool × String × String) × String) := []
 
 def parseTableEntry (t : ScanTable) (s : String) : Option ScanTable :=
   match s.splitOn "~" with
   | ["O", c, ids] => some { t with os := t.os ++ [(c, if ids = "" then [] else ids.splitOn "+")] }
-  | ["F", q, c, id, db] => some { t with files := t.files ++ [((q, c), (id, db))] }
+  | ["F", eco, q, c, id, db] => some { t with files := t.files ++ [((eco, q, c), (id, db))] }
+  | ["D", rh, d, c, dist] => some { t with dists := t.dists ++ [((decide (rh = "1"), d, c), dist)] }
   | _ => none
 
 def parseTable (s : String) : Option ScanTable :=
   if s = "-" then some {} else (s.splitOn ",").foldlM parseTableEntry {}
 
-def tableScanners (dbs : List String) (t : ScanTable) : Scanners where
-  osDbs := dbs
+/-- `path` or `path@distfile` -/
+def parseDbSpec (s : String) : String × String :=
+  match s.splitOn "@" with
+  | [d, f] => (d, f)
+  | _ => (s, "etc/os-release")
+
+def listField (s : String) : List String := if s = "-" then [] else s.splitOn ","
+
+def tableEco (t : ScanTable) (name : String) : FileEco where
+  gobin := name.toList.head? = some '*'
+  scan := fun q c => (t.files.filter fun e => e.1.1 = name ∧ e.1.2.1 = q ∧ e.1.2.2 = c).map fun e => mkPkg e.2.1 e.2.2
+
+def tableScanners (os rh : List (String × String)) (fecos : List String) (t : ScanTable) : Scanners where
+  osDbs := os.map (·.1)
+  rhelDbs := rh.map (·.1)
   scanDB := fun d c => ((t.os.find? fun e => e.1 = c).map fun e => e.2.map fun id => mkPkg id d).getD []
-  scanFile := fun q c => (t.files.find? fun e => e.1.1 = q ∧ e.1.2 = c).map fun e => mkPkg e.2.1 e.2.2
+  fecos := fecos.map (tableEco t)
+  distFile := fun b d => (((if b then rh else os).find? fun e => e.1 = d).map (·.2)).getD "etc/os-release"
+  scanDist := fun b d c => (t.dists.find? fun e => e.1.1 = b ∧ e.1.2.1 = d ∧ e.1.2.2 = c).map fun e => { id := e.2 }
 
 def parseHashedLayer (s : String) : Option FSLayer :=
   match s.splitOn ";" with
@@ -231,15 +299,20 @@ def sortDedup (xs : List String) : List String :=
   let sorted := xs.mergeSort fun a b => !(b < a)
   sorted.foldr (fun x acc => match acc with | y :: _ => if x = y then acc else x :: acc | [] => [x]) []
 
-def e2eLine (dbs table stack : String) : String :=
+def distName (d : Option Dist) : String := match d with | some x => x.id | none => "-"
+
+def e2eLine (osdbs rheldbs fecos table stack : String) : String :=
   match parseTable table, (stack.splitOn "|").mapM parseHashedLayer with
   | some t, some layers =>
-    let S := tableScanners (if dbs = "-" then [] else dbs.splitOn ",") t
+    let S := tableScanners ((listField osdbs).map parseDbSpec) ((listField rheldbs).map parseDbSpec) (listField fecos) t
     let idx := match indexModel S layers with
       | none => "fail"
-      | some r => ",".intercalate (sortDedup (r.envs.flatMap fun (ie : String × List Env) => ie.2.map fun (e : Env) => ie.1 ++ "@" ++ e.db))
+      | some r => ",".intercalate (sortDedup (r.envs.flatMap fun (ie : String × List Env) => ie.2.map fun (e : Env) =>
+          ie.1 ++ "@" ++ e.db ++ "#" ++ (if e.distId = "" then "-" else e.distId)))
     let img := ",".intercalate (sortDedup ((scanImage S layers).map fun (p : Pkg) => p.id ++ "@" ++ p.db))
-    s!"tame={tameB S layers} idx={idx} img={img}"
+    let ds := (S.osDbs.map fun d => "0:" ++ d ++ "=" ++ distName (imageDist S false d layers)) ++
+      (S.rhelDbs.map fun d => "1:" ++ d ++ "=" ++ distName (imageDist S true d layers))
+    s!"tame={tameB S layers} idx={idx} img={img} dist={",".intercalate ds}"
   | _, _ => "bad-op"
 
 end ClairModel.LayerFS
